@@ -1,75 +1,106 @@
 /-
-Model of `strings::split_off_front_matter` (src/strings.rs) and of the front-matter step at the
-head of `Parser::feed` (src/parser/mod.rs).  Core Lean only.
+Model of `strings::split_off_front_matter` / `strings::line_ending_len` (src/strings.rs, as of
+/repo commit d92265f "fix: recognise front matter line by line"), of `strings::count_line_endings`
+(/repo commit ef24343) and of the front-matter step at the head of `Parser::feed`
+(src/parser/mod.rs).  Core Lean only.
 
-The code works on `&str` with byte offsets; every offset it slices at follows a complete match of
-a valid UTF-8 pattern, so on valid UTF-8 the byte-level reading below is exact.
+The code works on `&str` with byte offsets; every offset it slices at is the start of the text, the
+end of the text, or directly before/after an ASCII byte (`\n`, `\r`) or after a complete match of
+the (valid UTF-8) delimiter, so on valid UTF-8 the byte-level reading below is exact.  The `char`
+search `find(|c| c == '\n' || c == '\r')` is a byte search: both are ASCII.
+
+`splitOld` is the function as it was before that commit (three substring searches in turn); it is
+kept only for the `_repaired` theorems of Props/C20.lean.
 -/
 import Comrak.Feed
 namespace Comrak
 open Bytes
 
 namespace FrontMatter
-open Comrak.Feed (BOM)
+open Comrak.Feed (BOM isLineEnd)
 
 /-- `trim_start_match(s, "\u{feff}")` -/
 def stripBom (s : Bytes) : Bytes := if isPrefixB BOM s then s.drop 3 else s
 
-/-- `str::find`: byte index of the first occurrence of `pat`. -/
-def findSub (pat : Bytes) : Bytes → Option Nat
-  | [] => if isPrefixB pat [] then some 0 else none
-  | b :: r => if isPrefixB pat (b :: r) then some 0 else (findSub pat r).map (· + 1)
+/-- `line_ending_len`: 2 if the text starts with CRLF, 1 if it starts with LF or CR, else 0. -/
+def lineEndingLen : Bytes → Nat
+  | [] => 0
+  | b :: r =>
+    if b = 0x0D then
+      (match r with
+       | [] => 1
+       | c :: _ => if c = 0x0A then 2 else 1)
+    else if b = 0x0A then 1 else 0
 
-/-- `starts_with('\n')` -> 1, else `starts_with("\r\n")` -> 2, else nothing. -/
-def eolLen (s : Bytes) : Option Nat :=
-  if isPrefixB [0x0A] s then some 1 else if isPrefixB [0x0D, 0x0A] s then some 2 else none
+/-- `s[pos..].find(|c| c == '\n' || c == '\r')`: the content of the line that starts here
+    (`s[pos..content_end]`) and the text from its end on (`s[content_end..]`). -/
+def scanLine : Bytes → Bytes × Bytes
+  | [] => ([], [])
+  | b :: r => if isLineEnd b then ([], b :: r) else (b :: (scanLine r).1, (scanLine r).2)
 
-/-- The three `find` alternatives, in the code's order: delimiter line ended by CRLF, by LF, or
-    (meant to be) by the end of the input. -/
-def findClose (d body : Bytes) : Option Nat :=
-  match findSub (0x0A :: d ++ [0x0D, 0x0A]) body with
-  | some n => some n
-  | none =>
-    match findSub (0x0A :: d ++ [0x0A]) body with
-    | some n => some n
-    | none => findSub (0x0A :: d) body
+/-- The `loop` of `split_off_front_matter` on `rem = s[pos..]`: what is taken of `rem`
+    (`s[pos..end]`) and the rest (`s[end..]`).  The first argument bounds the number of iterations
+    (every iteration that continues consumes at least one byte). -/
+def closeLoop (d : Bytes) : Nat → Bytes → Option (Bytes × Bytes)
+  | 0, _ => none
+  | fuel + 1, rem =>
+    let c := (scanLine rem).1                  -- s[pos..content_end]
+    let t := (scanLine rem).2                  -- s[content_end..]
+    let e := lineEndingLen t                   -- next - content_end
+    if c = d then
+      let e2 := lineEndingLen (t.drop e)       -- end - next
+      some (c ++ t.take (e + e2), t.drop (e + e2))
+    else if e = 0 then none                    -- next == content_end: end of input
+    else (closeLoop d fuel (t.drop e)).map fun p => (c ++ t.take e ++ p.1, p.2)
 
 /-- `split_off_front_matter(s, delimiter)`: `(front matter, rest)`. -/
 def splitOffFrontMatter (s0 d : Bytes) : Option (Bytes × Bytes) :=
   let s := stripBom s0
   if isPrefixB d s then
-    match eolLen (s.drop d.length) with
-    | none => none
-    | some e1 =>
-      let start := d.length + e1
-      match findClose d (s.drop start) with
-      | none => none
-      | some n =>
-        let start2 := start + (n + 1 + d.length)
-        if start2 = s.length then some (s, [])
-        else
-          match eolLen (s.drop start2) with
-          | none => none
-          | some e2 =>
-            let start3 := start2 + e2
-            let start4 := start3 + (eolLen (s.drop start3)).getD 0
-            some (s.take start4, s.drop start4)
+    let t := s.drop d.length
+    let e := lineEndingLen t
+    if e = 0 then none
+    else (closeLoop d (t.length + 1) (t.drop e)).map fun p => (d ++ t.take e ++ p.1, p.2)
   else none
 
 /-! ## Vocabulary of the statements -/
 
-/-- `\n` or `\r\n`. -/
-def IsEol (e : Bytes) : Prop := e = [0x0A] ∨ e = [0x0D, 0x0A]
+/-- A line ending: LF, CRLF or CR. -/
+def IsEol (e : Bytes) : Prop := e = [0x0A] ∨ e = [0x0D, 0x0A] ∨ e = [0x0D]
 
-/-- The uniform line end of a text: CRLF or LF. -/
-def eol (crlf : Bool) : Bytes := if crlf then [0x0D, 0x0A] else [0x0A]
+/-- No line-end byte. -/
+def noEol (c : Bytes) : Prop := ∀ b ∈ c, isLineEnd b = false
 
-/-- No line of the text starts with `d`; lines begin at the start (`bol = true`) and after every LF. -/
-def noLineStartsWith (d : Bytes) : Bool → Bytes → Bool
-  | _, [] => true
-  | bol, c :: r => (!(bol && isPrefixB d (c :: r))) && noLineStartsWith d (c == 0x0A) r
+/-- `e` followed by `x` is read as the line ending `e` (a lone CR is not followed by LF). -/
+def Junction (e x : Bytes) : Prop := e = [0x0D] → x.head? ≠ some 0x0A
 
-/-- Number of LF bytes (`front_matter.as_bytes().iter().filter(|b| **b == b'\n').count()`). -/
+/-- The lines of a text, terminators LF / CRLF / CR, without their terminators: `Feed.splitLines`
+    (the C08 specification of the feeder) minus its NUL replacement; see
+    `C20.parseLines_eq_lines`.  `cur` is the pending line, `cr` = the previous byte was a CR. -/
+def rawLines (cur : Bytes) (cr : Bool) : Bytes → List Bytes
+  | [] => if cur = [] then [] else [cur]
+  | b :: r =>
+    if b = 0x0A then (if cr then rawLines cur false r else cur :: rawLines [] false r)
+    else if b = 0x0D then cur :: rawLines [] true r
+    else rawLines (cur ++ [b]) false r
+
+/-- The lines of a text (a final line end does not open another line). -/
+def lines (s : Bytes) : List Bytes := rawLines [] false s
+
+/-- `strings::count_line_endings` (since /repo commit ef24343): the number of line endings (LF,
+    CRLF or CR) of a text; `find` the next line-end byte, count, skip `line_ending_len`.  The
+    first argument bounds the number of iterations. -/
+def countLineEndings : Nat → Bytes → Nat
+  | 0, _ => 0
+  | fuel + 1, s =>
+    let t := (scanLine s).2                    -- rest[n..]; empty when `find` returns None
+    if t = [] then 0 else 1 + countLineEndings fuel (t.drop (lineEndingLen t))
+
+/-- `count_line_endings(s)`. -/
+def lineEndings (s : Bytes) : Nat := countLineEndings (s.length + 1) s
+
+/-- Number of LF bytes: what `feed` added to `line_number` before /repo commit ef24343
+    (`front_matter.as_bytes().iter().filter(|b| **b == b'\n').count()`). -/
 def countLF (s : Bytes) : Nat := (s.filter (· == 0x0A)).length
 
 /-- The head of `parse_document` with `front_matter_delimiter = Some d`: the front matter node's
@@ -81,7 +112,50 @@ def parseDoc (d : Option Bytes) (s : Bytes) : Option Bytes × List (Bytes × Nat
   | some d =>
     match splitOffFrontMatter s d with
     | none => (none, Feed.preludes 0 (Feed.parseLines s))
-    | some (fm, rest) => (some fm, Feed.preludes (countLF fm) (Feed.parseLines rest))
+    | some (fm, rest) => (some fm, Feed.preludes (lineEndings fm) (Feed.parseLines rest))
+
+/-! ## The function before /repo commit d92265f -/
+
+/-- `str::find`: byte index of the first occurrence of `pat`. -/
+def findSub (pat : Bytes) : Bytes → Option Nat
+  | [] => if isPrefixB pat [] then some 0 else none
+  | b :: r => if isPrefixB pat (b :: r) then some 0 else (findSub pat r).map (· + 1)
+
+/-- Old: `starts_with('\n')` -> 1, else `starts_with("\r\n")` -> 2, else nothing. -/
+def eolLenOld (s : Bytes) : Option Nat :=
+  if isPrefixB [0x0A] s then some 1 else if isPrefixB [0x0D, 0x0A] s then some 2 else none
+
+/-- Old: the three `find` alternatives, in the old code's order: delimiter line ended by CRLF, by
+    LF, or (meant to be) by the end of the input. -/
+def findCloseOld (d body : Bytes) : Option Nat :=
+  match findSub (0x0A :: d ++ [0x0D, 0x0A]) body with
+  | some n => some n
+  | none =>
+    match findSub (0x0A :: d ++ [0x0A]) body with
+    | some n => some n
+    | none => findSub (0x0A :: d) body
+
+/-- `split_off_front_matter` as it was before d92265f. -/
+def splitOld (s0 d : Bytes) : Option (Bytes × Bytes) :=
+  let s := stripBom s0
+  if isPrefixB d s then
+    match eolLenOld (s.drop d.length) with
+    | none => none
+    | some e1 =>
+      let start := d.length + e1
+      match findCloseOld d (s.drop start) with
+      | none => none
+      | some n =>
+        let start2 := start + (n + 1 + d.length)
+        if start2 = s.length then some (s, [])
+        else
+          match eolLenOld (s.drop start2) with
+          | none => none
+          | some e2 =>
+            let start3 := start2 + e2
+            let start4 := start3 + (eolLenOld (s.drop start3)).getD 0
+            some (s.take start4, s.drop start4)
+  else none
 
 end FrontMatter
 end Comrak
